@@ -23,6 +23,9 @@ pub(super) fn index_for_rcurrent(
     };
 
     if rotate_rcurrent {
+        // there must be an index left for the file after this one, otherwise nothing is renamed
+        // (the next rotation would rename onto the same name and overwrite the file renamed now)
+        let index_after_rcurrent = next_index(index_for_rcurrent)?;
         #[cfg(flexi_logger_verif)]
         {
             crate::verif_hooks::point("rename.before");
@@ -42,7 +45,7 @@ pub(super) fn index_for_rcurrent(
             Ok(()) => {
                 #[cfg(flexi_logger_verif)]
                 crate::verif_hooks::point("rename.after");
-                index_for_rcurrent = next_index(index_for_rcurrent)?;
+                index_for_rcurrent = index_after_rcurrent;
             }
             Err(e) => {
                 if e.kind() != std::io::ErrorKind::NotFound {
